@@ -103,7 +103,7 @@ def unary_nest_ok(where: int, m1: bool, m2: bool) -> bool:
     return agree(t, False, 0) and agree(t, True, 0)
 
 
-ARGS = [('empty',), ('num', '1'), ('bin', '+', ('num', '1'), ('num', '2')), ('str', 'a,b'),
+ARGS = [('empty',), ('num', '1'), ('bin', '+', ('num', '1'), ('num', '2')), ('str', 'a,""b'),
         ('par', ('bin', ',', ('ref', 'A1'), ('ref', 'B2'))), ('neg', '-', ('num', '3')), ('pct', ('num', '5'))]
 NARGS = len(ARGS)
 
@@ -125,7 +125,7 @@ def func_ok(n: int, a0: int, a1: int, a2: int, a3: int, lower: bool, ws: int, ne
     return agree(t, False, ws, lower)
 
 
-CELLS = [('num', '1'), ('str', 'x;y'), ('num', '-2'), ('err', '#N/A'), ('num', 'TRUE'), ('pct', ('num', '5'))]
+CELLS = [('num', '1'), ('str', 'x;""y'), ('num', '-2'), ('err', '#N/A'), ('num', 'TRUE'), ('pct', ('num', '5'))]
 
 
 def array_ok(r: int, c: int, k: int, ws: int) -> bool:
